@@ -9,7 +9,8 @@ def main(run):
     L = 2 if quick else 3
     run.rule = ('HeapHist.tla: every history (to the length bound) over 25 actions: mutate the source containers, mutate each of the 8 hand-outs '
                 '(paths, accessors, entries, children, child, one_level, the leaves list, the lists inside __getstate__), use the treespec as '
-                'operand of 12 operations in succeeding and failing instances, unregister / re-register its custom type, delete the tree, gc; '
+                'operand of 12 operations in succeeding and failing instances, unregister / re-register (with different functions) its custom type, delete the tree, gc; every '
+                'exhaustive history also after an unregister + re-register prefix; '
                 'TLC checks Immutable on all (and must violate it when a hand-out is declared aliased: vacuity guard); each history is replayed '
                 'on a tree with dict / defaultdict / OrderedDict / deque / namedtuple / custom-with-entries nodes: after EVERY step the treespec '
                 'and four partner treespecs are fully re-observed (state, repr, hash, paths, accessors, entries, children, one_level, unflatten), '
@@ -30,6 +31,8 @@ def main(run):
     run.extra['counterexample_when_aliased'] = r2.violated
     if not r2.violated:
         run.machinery('vacuity guard: HeapHist with an aliased hand-out should violate Immutable')
+    # every exhaustive history once more in the third registry epoch (the class unregistered and registered AGAIN, differently)
+    hs += [['unregister', 'reregister'] + h for h in hs]
     rng = random.Random(run.seed)
     acts = sorted({a for h in hs for a in h})
     if quick:
